@@ -14,17 +14,17 @@
 //!                         the model runs the INDEPENDENT (specification) decoder on the same bytes
 //!   nfe   flags src    -> hex(real rANS Nx16 stream) for EVERY flag byte (STRIPE, CAT, ORDER-0 or ORDER-1
 //!                         entropy coded, N = 4 | 32); model: Nx16Stripe.nx_encode_s; verdict: self round trip
-//!   nfd   flags usize stream expect -> hex(decode stream) | Err | Panic; model: Nx16Stripe.nx_decode_s (noodles'
+//!   nfd   flags usize stream expect -> hex(decode stream) | Err | Panic; model: Nx16Cap.nx_decode_s_capped = Nx16Stripe.nx_decode_s with hostile-size guards (noodles'
 //!                         decoder incl. the order-0/1 entropy decoders, entropy-coded RLE meta-data and
 //!                         entropy-coded order-1 tables)
 //!   aae   flags src    -> hex(real adaptive-arithmetic-coder stream) for every flag byte without EXT,
 //!                         model: AacRle.aac_encode_r (range coder, adaptive models, order 0/1, RLE, PACK, CAT, STRIPE)
-//!   aad   flags usize stream expect -> hex(decode stream) | Err | Panic; model: AacRle.aac_decode_r
+//!   aad   flags usize stream expect -> hex(decode stream) | Err | Panic; model: AacCap.aac_decode_r_capped (= AacRle.aac_decode_r below the cap)
 //!   fqe   lens src     -> hex(real fqzcomp stream); model: Fqz.fqz_encode; verdict: self round trip
-//!   fqd   stream expect -> hex(decode stream) | Err | Panic; model: Fqz.fqz_decode (streams without the features
+//!   fqd   stream expect -> hex(decode stream) | Err | Panic; model: FqzCap.fqz_decode_capped (= Fqz.fqz_decode below the cap; streams without the features
 //!                         the encoder never uses)
 //!   nme   src          -> hex(real name tokenizer stream); model: Names.names_encode; verdict: self round trip
-//!   nmd   stream expect -> hex(decode stream) | Err | Panic; model: Names.names_decode
+//!   nmd   stream expect -> hex(decode stream) | Err | Panic; model: NamesCap.names_decode_capped (= Names.names_decode below the cap)
 //!   HOSTILE STREAMS (same kinds nfd / aad / fqd / nmd, expect = "-"): flag bytes, declared sizes, compressed
 //!                         sizes, symbol / chunk counts, PACK tables, order-1 table headers, fqzcomp parameter bytes and
 //!                         name tokenizer header / token-type bytes of real streams are corrupted (1..3 fields; every
@@ -1657,9 +1657,7 @@ fn generate(rng: &mut Rng, tier: &str, w: &mut CaseWriter) {
                 }
             }
         }
-        // entropy-compressed RLE meta-data and order-1 tables (never written by the encoder): take
-        // them from the corpus-style constructions above by flipping the header bits is not
-        // possible, so corrupt noodles' own decode vectors too
+        // a hand-written order-0 stream (size 7, alphabet d e | l n o | s, frequencies, four states)
         for (vec_, n) in [
             (vec![0x00u8, 0x07, 0x64, 0x65, 0x00, 0x6c, 0x6e, 0x6f, 0x00, 0x73, 0x00, 0x01, 0x01, 0x01, 0x01, 0x03, 0x01, 0x00, 0x26, 0x20, 0x00, 0x00, 0xb8, 0x0a, 0x00, 0x00, 0xd8, 0x0a, 0x00, 0x00, 0x00, 0x04, 0x00], 7usize),
         ] {
